@@ -820,7 +820,28 @@ func runC10(p *core.Program, r *core.Report) {
 	nput := 0
 	core.Instrs(order, func(ins ssa.Instruction) {
 		c, ok := ins.(*ssa.Call)
-		if !ok || !c.Call.IsInvoke() || c.Call.Method.Name() != "Put" {
+		if !ok {
+			return
+		}
+		// an output: out.Put(v), or a call of a helper of the package that
+		// does the Puts (putValues(out, values))
+		isOutput := c.Call.IsInvoke() && c.Call.Method.Name() == "Put"
+		if callee := c.Call.StaticCallee(); !isOutput && callee != nil && callee.Blocks != nil && core.PkgPathOf(callee) == pkgEval {
+			takesOutput := false
+			for _, a := range c.Call.Args {
+				if strings.HasSuffix(a.Type().String(), "eval.ValueOutput") {
+					takesOutput = true
+				}
+			}
+			if takesOutput {
+				core.Instrs(callee, func(i2 ssa.Instruction) {
+					if c2, ok := i2.(*ssa.Call); ok && c2.Call.IsInvoke() && c2.Call.Method.Name() == "Put" {
+						isOutput = true
+					}
+				})
+			}
+		}
+		if !isOutput {
 			return
 		}
 		nput++
